@@ -142,20 +142,16 @@ theorem stepCore_none_harmless (P : Pool) (K : Oracle) (s : ApiState) (op : Op) 
     · exact .same
     · rename_i f hf
       split
+      · refine .native r _ ?_
+        rw [hf]; simp [Obj.fp, QF.fp]
       · exact .same
-      · split
-        · refine .native r _ ?_
-          rw [hf]; simp [Obj.fp, QF.fp]
-        · exact .same
     · rename_i a ha
       split
       · exact .same
       · split
+        · refine .native r _ ?_
+          rw [ha]; simp [Obj.fp]
         · exact .same
-        · split
-          · refine .native r _ ?_
-            rw [ha]; simp [Obj.fp]
-          · exact .same
 
 theorem harmless_ns {P : Pool} {s s' : ApiState} (h : Harmless P s s') : s'.ns = s.ns := by
   cases h <;> rfl
@@ -308,14 +304,10 @@ theorem stepCore_none_snd (P : Pool) (K : Oracle) (s s' : ApiState) (op : Op)
     split
     · rfl
     · rfl
+    · split <;> rfl
     · split
       · rfl
       · split <;> rfl
-    · split
-      · rfl
-      · split
-        · rfl
-        · split <;> rfl
 
 theorem close_result_congr (x y : ApiState × Tri Obj) (h : x.2 = y.2) : (close x).2 = (close y).2 := by
   unfold close
